@@ -107,6 +107,7 @@ func rulesC14(w *World, r *Report) {
 	for f := range reach {
 		r.fnSeen(fnName(f))
 	}
+	w.ruleLocalIndexInRange(r, "C14.R8 element accesses of local containers are in range", 3)
 	w.ruleLoopsProgress(r, "C14.R7 every loop on the decode path makes progress", 8, func(fn *ssa.Function) bool { return reach[fn] || reach[rootFn(fn)] })
 	// R1
 	w.ruleIndexGuardsPX(r, "C14.R1 table indices are guarded on both sides", nil)
@@ -281,6 +282,13 @@ func (w *World) protected(fn *ssa.Function, memo map[*ssa.Function]int) (bool, s
 							}
 						}
 					}
+				}
+			}
+			// every way through the handler that has recovered something assigns the error
+			if callsRecover && setsErr {
+				if pos := w.recoverLeavesErrUnset(cf); pos != "" {
+					memo[fn] = 3
+					return false, "the deferred recover at " + w.instrPos(df) + " has a path (" + pos + ") on which a panic was recovered and the error result is not assigned: the entry point returns success on input that panicked"
 				}
 			}
 			// the defer must be registered before any work: in the entry block
@@ -725,9 +733,9 @@ func rulesC16(w *World, r *Report) {
 				}
 				if cs.callee == "reflect.New" {
 					if ac, ok := cs.call.Call.Args[0].(*ssa.Call); ok && ac.Call.IsInvoke() && ac.Call.Method.Name() == "Elem" {
-						// New(T.Elem()) — inside the pointer loop?
+						// New(T.Elem()) — inside the pointer loop, and on the side where IsNil held
 						for _, lp := range naturalLoops(g) {
-							if lp.body[cs.call.Block()] {
+							if lp.body[cs.call.Block()] && onIsNilSide(cs.call.Block()) {
 								hasNew = true
 							}
 						}
@@ -882,6 +890,7 @@ func rulesC16(w *World, r *Report) {
 		w.ruleEmptyContainersDescended(r, "C16.R2 absent containers are descended by type", ev)
 	}
 	w.ruleTypeWalkDescends(r, "C16.R2 the type walk descends every container type")
+	w.ruleTypeWalkComplete(r, "C16.R2 the type walk descends every part of a container type")
 }
 
 // ruleWalkVisitsAll: every loop of the value walk that recurses leaves only
@@ -1088,4 +1097,93 @@ func uniqJoin(xs []string) string {
 		}
 	}
 	return strings.Join(out, "; ")
+}
+
+// recoverLeavesErrUnset: position of a return of the recover handler cf that is
+// reachable from the "recovered value is not nil" edge without passing a store
+// of a non-nil value into an error cell ("" if there is none).
+func (w *World) recoverLeavesErrUnset(cf *ssa.Function) string {
+	stores := map[*ssa.BasicBlock]bool{}
+	for _, b := range cf.Blocks {
+		for _, in := range b.Instrs {
+			st, ok := in.(*ssa.Store)
+			if !ok || isNilConst(st.Val) {
+				continue
+			}
+			pt, ok := st.Addr.Type().Underlying().(*types.Pointer)
+			if ok && isErrorType(pt.Elem()) {
+				stores[b] = true
+			}
+		}
+	}
+	var start []*ssa.BasicBlock
+	for _, b := range cf.Blocks {
+		iff, ok := b.Instrs[len(b.Instrs)-1].(*ssa.If)
+		if !ok {
+			continue
+		}
+		bo, ok := iff.Cond.(*ssa.BinOp)
+		if !ok || (bo.Op != token.NEQ && bo.Op != token.EQL) {
+			continue
+		}
+		isRec := func(v ssa.Value) bool {
+			c, ok := v.(*ssa.Call)
+			if !ok {
+				return false
+			}
+			bi, ok := c.Call.Value.(*ssa.Builtin)
+			return ok && bi.Name() == "recover"
+		}
+		if !(isRec(bo.X) && isNilConst(bo.Y)) && !(isRec(bo.Y) && isNilConst(bo.X)) {
+			continue
+		}
+		if bo.Op == token.NEQ {
+			start = append(start, b.Succs[0])
+		} else {
+			start = append(start, b.Succs[1])
+		}
+	}
+	seen := map[*ssa.BasicBlock]bool{}
+	var bad string
+	var walk func(b *ssa.BasicBlock)
+	walk = func(b *ssa.BasicBlock) {
+		if bad != "" || seen[b] || stores[b] {
+			return
+		}
+		seen[b] = true
+		if ret, ok := b.Instrs[len(b.Instrs)-1].(*ssa.Return); ok {
+			bad = "return at " + w.instrPos(ret)
+			return
+		}
+		for _, s := range b.Succs {
+			walk(s)
+		}
+	}
+	for _, b := range start {
+		walk(b)
+	}
+	return bad
+}
+
+// onIsNilSide: b is (dominated by) the successor taken when an IsNil() test holds.
+func onIsNilSide(b *ssa.BasicBlock) bool {
+	for _, d := range b.Parent().Blocks {
+		iff, ok := d.Instrs[len(d.Instrs)-1].(*ssa.If)
+		if !ok {
+			continue
+		}
+		cond, side := iff.Cond, 0
+		if u, ok := cond.(*ssa.UnOp); ok && u.Op == token.NOT {
+			cond, side = u.X, 1
+		}
+		c, ok := cond.(*ssa.Call)
+		if !ok || calleeName(&c.Call) != "IsNil" {
+			continue
+		}
+		t := d.Succs[side]
+		if (t == b || t.Dominates(b)) && len(t.Preds) == 1 {
+			return true
+		}
+	}
+	return false
 }
